@@ -50,9 +50,9 @@ func startServer() {
 		seen.text = observeRequest(c)
 		seen.ran = true
 		cookieHeaderSeen = string(c.Request().Header.Peek("Cookie"))
-		for _, ck := range respCookies {
+		for _, line := range setCookieLines() {
 			// Add, not SetCookie: fasthttp's SetCookie keeps one cookie per name
-			c.Response().Header.Add("Set-Cookie", string(ck.Cookie()))
+			c.Response().Header.Add("Set-Cookie", line)
 		}
 		if handlerDelay > 0 {
 			time.Sleep(handlerDelay)
@@ -145,6 +145,9 @@ func emitJar(w *out, id string, ops []jarOp) {
 	}
 	if obs == "slow" {
 		w.Count("jar-slow")
+	}
+	for _, k := range malformedCounters(ops) {
+		w.Count(k)
 	}
 }
 
@@ -290,7 +293,8 @@ func worker(o gen.Opts, from, to int) {
 			// a few histories per run in which cookies expire between two operations (real time: ~0.35 s each)
 			// … and every ninth history on a tick clock of a few milliseconds (cookies with different lives, up to
 			// five waits of 1-2 ticks, lookups and real requests in between)
-			emitJar(w, id, genJar(r, i%1000 == 13, i%20 == 10))
+			// … and two of nine start with a response carrying a MALFORMED Set-Cookie (malEpisode)
+			emitJar(w, id, genJar(r, i%1000 == 13, i%20 == 10, i%20 == 12 || i%20 == 16))
 		}
 	}
 	distCounter{w}.add("pool-rounds", poolRounds)
